@@ -440,6 +440,7 @@ func RunDriver(dir string, cases string, n int, seed uint64) (*DriverReport, str
 	if err := os.WriteFile(filepath.Join(dir, "home", "zz_cases_test.go"), []byte(cases), 0o644); err != nil {
 		return nil, "", err
 	}
+	hx.ScratchCacheTick()
 	out := filepath.Join(dir, "zz_report.json")
 	res := hx.Run("go", hx.RunOpts{Dir: dir, Args: []string{"test", "-count=1", "-vet=off", "-run", "^TestZZDriver$", "./home/"},
 		Env: []string{"VERIF_DRV_OUT=" + out, fmt.Sprintf("VERIF_DRV_N=%d", n), fmt.Sprintf("VERIF_DRV_SEED=%d", seed)}, Timeout: 240 * time.Second})
